@@ -31,10 +31,19 @@ def instr_names():
     return sorted(n for n in dir(X) if isinstance(getattr(X, n), Procedure) and getattr(X, n).is_instr())
 
 
-def wrapper_for(name):
-    """-> (Procedure wrapper, info) built from the instruction's signature"""
-    if name in _cache:
-        return _cache[name]
+def wrapper_for(name, variant=0):
+    """-> (Procedure wrapper, info) built from the instruction's signature.
+
+    variant selects the window placement of the operands:
+      0  DRAM operand = interior slice of a 1-d array, register operand = whole register
+      1  DRAM operand = slice of a row of a 2-d array (non-zero row and column offset),
+         register operand = row of a 2-d register array
+      2  DRAM operand = full row (column offset 0) of a 2-d array, register operand = row of a
+         3-d register array
+    """
+    key = (name, variant)
+    if key in _cache:
+        return _cache[key]
     import exo.platforms.x86 as X
 
     ins = getattr(X, name)
@@ -59,14 +68,25 @@ def wrapper_for(name):
                 raise Skip("rank")
             L = dims[0]
             mem = a.mem.name() if a.mem else "DRAM"
-            sig.append(f"d_{nm}: {pn}[{L} + {2 * PAD}]")
-            if mem in ("AVX2", "AVX512"):
-                pre.append(f"r_{nm}: {pn}[{L}] @ {mem}")
-                pre.append(f"{LOADS[(mem, bt)]}(r_{nm}, d_{nm}[{PAD}:{PAD} + {L}])")
-                post.append(f"{STORES[(mem, bt)]}(d_{nm}[{PAD}:{PAD} + {L}], r_{nm})")
-                call.append(f"r_{nm}")
+            if variant == 0:
+                sig.append(f"d_{nm}: {pn}[{L} + {2 * PAD}]")
+                dwin = f"d_{nm}[{PAD}:{PAD} + {L}]"
+                rdecl, rwin = f"r_{nm}: {pn}[{L}] @ {mem}", f"r_{nm}"
+            elif variant == 1:
+                sig.append(f"d_{nm}: {pn}[3, {L} + 4]")
+                dwin = f"d_{nm}[1, 2:2 + {L}]"
+                rdecl, rwin = f"r_{nm}: {pn}[2, {L}] @ {mem}", f"r_{nm}[1, 0:{L}]"
             else:
-                call.append(f"d_{nm}[{PAD}:{PAD} + {L}]")
+                sig.append(f"d_{nm}: {pn}[4, {L}]")
+                dwin = f"d_{nm}[2, 0:{L}]"
+                rdecl, rwin = f"r_{nm}: {pn}[2, 2, {L}] @ {mem}", f"r_{nm}[1, 0, 0:{L}]"
+            if mem in ("AVX2", "AVX512"):
+                pre.append(rdecl)
+                pre.append(f"{LOADS[(mem, bt)]}({rwin}, {dwin})")
+                post.append(f"{STORES[(mem, bt)]}({dwin}, {rwin})")
+                call.append(rwin)
+            else:
+                call.append(dwin)
         elif t.is_real_scalar():
             pn = PNAME[type(t).__name__]
             sig.append(f"s_{nm}: {pn}")
@@ -82,7 +102,7 @@ def wrapper_for(name):
     g = exec_source(src)
     w = g[f"w_{name}"]
     info = {"sizes": sizes, "src": "\n".join(lines), "is_div": "div" in name, "prefix": any(s in ("bound", "N") for s in sizes)}
-    _cache[name] = (w, info)
+    _cache[key] = (w, info)
     return w, info
 
 
@@ -105,7 +125,7 @@ def check_case(case):
     names = instr_names()
     name = names[case["instr"] % len(names)]
     try:
-        w, info = wrapper_for(name)
+        w, info = wrapper_for(name, case.get("variant", 0) % 3)
     except rejection_types() as e:
         raise Violation({"kind": "wrapper-rejected", "instr": name}, f"the generated caller of {name} is rejected by the front end: {type(e).__name__}: {str(e)[:300]}")
     wir = w.INTERNAL_proc()
@@ -179,7 +199,7 @@ def check_case(case):
     return {
         "nontrivial": nontriv,
         "digest": {"i": name, "v": [(fv["ctrl"], fv["data"]) for fv, _ in good]},
-        "classes": ["instr:" + name, f"vectors={len(good)}"],
+        "classes": ["instr:" + name, f"vectors={len(good)}", f"placement={case.get('variant', 0) % 3}"],
         "sample": {"instruction": name, "wrapper": info["src"], "control": good[0][0]["ctrl"], "operands": {k: v[:8] for k, v in good[0][0]["data"].items()}},
     }
 
@@ -192,7 +212,7 @@ def floats():
 
 def case_strategy(idx_strategy):
     vec = st.lists(floats(), min_size=24, max_size=24)
-    return st.fixed_dictionaries({"instr": idx_strategy, "pick": st.integers(0, 40), "vecs": st.lists(vec, min_size=6, max_size=6)})
+    return st.fixed_dictionaries({"instr": idx_strategy, "variant": st.integers(0, 2), "pick": st.integers(0, 40), "vecs": st.lists(vec, min_size=6, max_size=6)})
 
 
 def run(ctx):
